@@ -161,8 +161,11 @@ impl FixedCapacityPoolStats {
 /// Free list head for a size class
 #[derive(Debug)]
 struct FreeListHead {
-    /// Head of free list (as offset)
-    head: AtomicU32,
+    /// Head of free list: block offset in the low 32 bits, a generation counter in the
+    /// high 32 bits. Every successful push and pop changes the generation, so a
+    /// compare-exchange cannot succeed against a head that was popped and pushed back
+    /// in between (ABA), which would install a stale successor - possibly a live block.
+    head: AtomicU64,
     /// Count of free blocks in this size class
     count: AtomicU32,
 }
@@ -170,9 +173,19 @@ struct FreeListHead {
 impl FreeListHead {
     fn new() -> Self {
         Self {
-            head: AtomicU32::new(LIST_TAIL),
+            head: AtomicU64::new(Self::pack(LIST_TAIL, 0)),
             count: AtomicU32::new(0),
         }
+    }
+
+    #[inline]
+    fn pack(offset: u32, generation: u32) -> u64 {
+        ((generation as u64) << 32) | offset as u64
+    }
+
+    #[inline]
+    fn unpack(packed: u64) -> (u32, u32) {
+        (packed as u32, (packed >> 32) as u32)
     }
 }
 
@@ -517,7 +530,8 @@ impl FixedCapacityMemoryPool {
 
         // Try to pop from free list
         loop {
-            let current_head = free_list.head.load(Ordering::Acquire);
+            let packed = free_list.head.load(Ordering::Acquire);
+            let (current_head, generation) = FreeListHead::unpack(packed);
             
             if current_head == LIST_TAIL {
                 // Try to split from larger size class
@@ -539,8 +553,8 @@ impl FixedCapacityMemoryPool {
 
             // Try to update head atomically
             if free_list.head.compare_exchange_weak(
-                current_head,
-                next_offset,
+                packed,
+                FreeListHead::pack(next_offset, generation.wrapping_add(1)),
                 Ordering::Release,
                 Ordering::Relaxed,
             ).is_ok() {
@@ -559,7 +573,7 @@ impl FixedCapacityMemoryPool {
         for larger_class in (size_class_index + 1)..self.size_classes.len() {
             let free_lists = unsafe { &*self.free_lists.get() };
             let free_list = &free_lists[larger_class];
-            let head = free_list.head.load(Ordering::Acquire);
+            let (head, _) = FreeListHead::unpack(free_list.head.load(Ordering::Acquire));
             
             if head != LIST_TAIL {
                 // Try to allocate from larger class and split
@@ -592,12 +606,13 @@ impl FixedCapacityMemoryPool {
 
         // Add to free list
         loop {
-            let current_head = free_list.head.load(Ordering::Acquire);
+            let packed = free_list.head.load(Ordering::Acquire);
+            let (current_head, generation) = FreeListHead::unpack(packed);
             header.next = current_head;
 
             if free_list.head.compare_exchange_weak(
-                current_head,
-                offset,
+                packed,
+                FreeListHead::pack(offset, generation.wrapping_add(1)),
                 Ordering::Release,
                 Ordering::Relaxed,
             ).is_ok() {
